@@ -101,6 +101,10 @@ var variants = []variant{
 	{"link-to-link-rel-trailing-slash", "other", "{R}/lnslashrel", "link-chain"},
 	{"link-abs-target-dot-segments", "other", "{R}/lndots", "link-chain"},
 	{"link-chain-across-dirs-rel", "chainA/deep", "first", "link-chain"},
+	// the working directory was entered through a symlink and $PWD still spells it that way (what a shell's cd leaves behind)
+	{"rel-updown-logical-pwd", "hop", "../../src", "logical-pwd"},
+	{"rel-updown-logical-pwd-slash", "hop", "../../src/", "logical-pwd"},
+	{"rel-name-logical-pwd", "parentlink/other", "../src", "logical-pwd"},
 	{"link-trailing-slash", "other", "{R}/lnabs/", "link-slash"},
 	{"link-rel-trailing-slash", "other", "{R}/links/lnrel/", "link-slash"},
 }
@@ -226,7 +230,21 @@ func checkSpelling(c Case) error {
 			}
 		}
 		ev.Eval()
+		if v.class == "logical-pwd" {
+			oldPWD, had := os.LookupEnv("PWD")
+			os.Setenv("PWD", filepath.Join(r, v.cwd))
+			defer func() {
+				if had {
+					os.Setenv("PWD", oldPWD)
+				} else {
+					os.Unsetenv("PWD")
+				}
+			}()
+		}
 		got, gerr := packAt(filepath.Join(r, v.cwd), fsx.Subst(v.arg, vars), c.Opts, vars)
+		if v.class == "logical-pwd" {
+			os.Unsetenv("PWD")
+		}
 		if v.cwd == "/" {
 			got, gerr = packAt("/", fsx.Subst(v.arg, vars), c.Opts, vars)
 		}
